@@ -1,7 +1,7 @@
 (* run_case: the single entry point of the extracted model.  One case term in, one observation
    term out; the same function is evaluated with vm_compute for the extraction cross-check. *)
 From Coq Require Import String.
-From AvroV Require Import Base Varint Schema Bytes Names Codec Validate Rabin SingleObject Sexp.
+From AvroV Require Import Base Varint Schema Bytes Names Codec Validate Rabin SingleObject Container Sexp.
 Local Open Scope string_scope.
 
 Definition run_fuel : nat := 300.
@@ -39,6 +39,53 @@ Definition so_ops_of (nmz : names) (s : schema) (l : list sexp) : option (list (
                     | None => None
                     end
                   | _ => None end) l.
+
+(* ---- container files ---- *)
+Definition avro_schema_key : bytes := [97;118;114;111;46;115;99;104;101;109;97].   (* "avro.schema" *)
+Definition avro_codec_key : bytes := [97;118;114;111;46;99;111;100;101;99].        (* "avro.codec" *)
+
+Fixpoint wops_of (nmz : names) (s : schema) (cur : bytes) (l : list sexp) : option (list wop) :=
+  match l with
+  | [] => Some []
+  | L (Sym t :: args) :: r =>
+    let cont (o : wop) (cur' : bytes) := option_map (cons o) (wops_of nmz s cur' r) in
+    if t =? "append" then
+      match args with
+      | [vx] =>
+        match value_of conv_fuel vx with
+        | Some v =>
+          match validate run_fuel find_todo nmz (schema_ns s) s v with
+          | Ok true => match encode run_fuel nmz (schema_ns s) s v with
+                       | Ok d => cont (WAppend d) cur
+                       | _ => cont WAppendEncErr cur end
+          | Ok false => cont WAppendInvalid cur
+          | _ => None
+          end
+        | None => None
+        end
+      | _ => None end
+    else if t =? "append-unvalidated" then
+      match args with
+      | [vx] =>
+        match value_of conv_fuel vx with
+        | Some v => match encode run_fuel nmz (schema_ns s) s v with
+                    | Ok d => cont (WAppend d) cur
+                    | _ => cont WAppendEncErr cur end
+        | None => None
+        end
+      | _ => None end
+    else if t =? "flush" then cont WFlush cur
+    else if t =? "meta" then
+      match args with [Hex k; Hex v] => cont (WAddMeta k v) cur | _ => None end
+    else if t =? "reset" then
+      match args with [Hex m] => cont (WReset m) m | _ => None end
+    else if (t =? "finish") || (t =? "drop") then cont WFinish cur
+    else if t =? "reopen" then cont (WReopen cur) cur
+    else None
+  | _ => None
+  end.
+
+Definition is_user_key (k : bytes) : bool := negb (starts_with avro_dot k).
 
 Definition run_case (x : sexp) : sexp :=
   match x with
@@ -89,6 +136,59 @@ Definition run_case (x : sexp) : sexp :=
         | Some c, Some s =>
           obs_of_res (fun vr => [sexp_of_value (fst vr); Hex (snd vr)])
             (do nmz <- resolved s; so_read run_fuel c nmz s hdr msg)
+        | _, _ => obs_bad
+        end
+      | _ => obs_bad
+      end
+    else if op =? "cfile" then
+      match args with
+      | sx :: Num bsz :: Hex marker :: Hex sjson :: ops =>
+        match schema_of conv_fuel sx with
+        | Some s =>
+          match resolved s with
+          | Ok nmz =>
+            match wops_of nmz s marker ops with
+            | Some wl =>
+              let hdr := header_bytes (fun l => l) [(avro_schema_key, sjson)] in
+              let '(st, rs) := wrun null_codec (Z.to_N bsz) hdr (winit marker) wl in
+              L [Sym "ok"; L (Sym "results" :: map (fun b : bool => Num (if b then 1 else 0)) rs);
+                 Hex (w_sink st)]
+            | None => obs_bad
+            end
+          | _ => obs_err
+          end
+        | None => obs_bad
+        end
+      | _ => obs_bad
+      end
+    else if op =? "cread" then
+      match args with
+      | [cx; sx; Hex file] =>
+        match cfg_of cx, schema_of conv_fuel sx with
+        | Some c, Some s =>
+          match resolved s with
+          | Ok nmz =>
+            match ropen c file with
+            | Ok (meta, marker, rest) =>
+              match lookup avro_schema_key meta with
+              | None => L [Sym "open-err"]
+              | Some _ =>
+                match lookup avro_codec_key meta with
+                | Some [110;117;108;108] | None =>
+                  let '(vs, e) := read_blocks c null_codec (decode run_fuel c nmz None s)
+                                              (S (length rest)) marker rest in
+                  L [Sym "ok";
+                     L (Sym "meta" :: map (fun kv => L [Sym "kv"; Hex (fst kv); Hex (snd kv)])
+                                          (filter (fun kv => is_user_key (fst kv)) meta));
+                     L (Sym "items" :: map sexp_of_value vs);
+                     Sym (match e with Clean => "clean" | Failed => "failed" end)]
+                | Some _ => L [Sym "codec-unsupported"]
+                end
+              end
+            | _ => L [Sym "open-err"]
+            end
+          | _ => obs_err
+          end
         | _, _ => obs_bad
         end
       | _ => obs_bad
